@@ -284,6 +284,15 @@ def _index3(ex, args, f):
             raise PathEnd("panic", "slice index out of range")
         a = pick(ex, lo, n)
         b = pick(ex, hi, n)
+        if is_str:
+            # str slicing panics when a cut falls inside a multi-byte character (decided for literal bytes; symbolic text is ASCII by assumption)
+            bs = s.bytes()
+            for cut in (a, b):
+                if 0 < cut < n:
+                    c = z3.simplify(bs[cut]) if z3.is_expr(bs[cut]) else bs[cut]
+                    cv = c if isinstance(c, int) else (c.as_long() if z3.is_bv_value(c) else None)
+                    if cv is not None and 0x80 <= cv <= 0xBF:
+                        raise PathEnd("panic", "byte index %d is not a char boundary" % cut)
         return s.sub(a, b)
     raise Unsupported("index with %r" % (r,))
 
@@ -2595,3 +2604,49 @@ def _vec_remove(ex, args, f):
         raise PathEnd("panic", "Vec::remove: index out of bounds")
     i = pick(ex, idx, n)
     return v.items.pop(i)
+
+
+# ---- std::fs::OpenOptions (+ OpenOptionsExt::mode): a creating open is the recording stub's create_file; the mode given at open is masked by the
+# process umask (environment) and only applies to a file that did not exist, so it does not count as "the permission bits were set"
+class OpenOptsV:
+    def __init__(self):
+        self.flags = {}
+        self.mode = None
+
+
+@intr("OpenOptions::new", "std::fs::OpenOptions::new", "fs::OpenOptions::new", "File::options", "std::fs::File::options")
+def _oo_new(ex, args, f):
+    return OpenOptsV()
+
+
+def _oo_flag(name):
+    def g(ex, args, f):
+        o = deref_all(ex, args[0])
+        v = deref_all(ex, args[1])
+        o.flags[name] = bool(ex.decide(v.e)) if hasattr(v, "e") else bool(v)
+        return args[0]
+    return g
+
+
+for _fl in ("read", "write", "append", "truncate", "create", "create_new"):
+    for _pre in ("OpenOptions::", "std::fs::OpenOptions::", "fs::OpenOptions::"):
+        I[_pre + _fl] = _oo_flag(_fl)
+
+
+@intr("<_ as OpenOptionsExt>::mode", "<std::fs::OpenOptions as OpenOptionsExt>::mode", "<fs::OpenOptions as OpenOptionsExt>::mode",
+      "<std::fs::OpenOptions as std::os::unix::fs::OpenOptionsExt>::mode", "<OpenOptions as OpenOptionsExt>::mode")
+def _oo_mode(ex, args, f):
+    o = deref_all(ex, args[0])
+    o.mode = deref_all(ex, args[1])
+    return args[0]
+
+
+@intr("OpenOptions::open", "std::fs::OpenOptions::open", "fs::OpenOptions::open")
+def _oo_open(ex, args, f):
+    o = deref_all(ex, args[0])
+    if not (o.flags.get("write") or o.flags.get("append")) or not (o.flags.get("create") or o.flags.get("create_new")):
+        raise Unsupported("OpenOptions::open without write+create")
+    fs = _fs()
+    good, stack = _fs_call(ex, "create_file", args[1], not o.flags.get("create_new"))
+    fs.ops[-1] = (fs.ops[-1][0], fs.ops[-1][1], ("mode at open", o.mode))
+    return ok(FileV(args[1])) if good else err(Opaque("io::Error(fs)"))
